@@ -602,6 +602,40 @@ func init() {
 			}
 			c18Case(c, g, top, t, 1+uint64(gr.Intn(2)), gr.Chance(30), uint64(gr.Intn(3)), gr.Chance(30), gr.Chance(30), "random")
 		}
+		// ---- a tree of more than 26 214 blocks: the sorted index of the CARv2 then has a sha2-256 bucket
+		// larger than 1 MiB (read in chunks by index.ReadFrom); too large for the list-based fs model,
+		// so the tree comparison is done here and the model predicts status and count
+		// (kind createextractlarge)
+		{
+			gr := r.Fork()
+			nd := 30 + gr.Intn(4)
+			ents := VL{}
+			for d := 0; d < nd; d++ {
+				fl := VL{}
+				for f := 0; f < 940; f++ {
+					nm := "f" + itoa(f)
+					fl = append(fl, VL{VB([]byte(nm)), VL{VT("f"), VB([]byte("d" + itoa(d) + "-" + nm + "-" + itoa(int(gr.U64()%1000))))}})
+				}
+				fl = append(fl, VL{VB([]byte("l")), VL{VT("l"), VB([]byte("f0"))}}, VL{VB([]byte("z-empty")), VL{VT("d"), VL{}}})
+				ents = append(ents, VL{VB([]byte("d" + itoa(d))), VL{VT("d"), fl}})
+			}
+			tree := VL{VT("d"), ents}
+			// quick: the archive is assembled here (same store session as `car create`), one
+			// sub-directory is extracted with --path; thorough: the real create + full extraction too
+			for k, mode := range []uint64{0, 2} {
+				in := VL{tree, VL{VN(2), VN(1), VN(mode), VN(1), VB([]byte("d" + itoa(7+k)))}}
+				obs := runCreateExtractLargeCase(c, in)
+				c.Count("kind:large-archive-over-26214-blocks")
+				c.Emit("createextractlarge", in, obs, true)
+			}
+			if c.Thorough {
+				for _, mode := range []uint64{0, 1} {
+					in := VL{tree, VL{VN(2), vbool(mode == 1), VN(mode), VN(0), VB(nil)}}
+					c.Count("kind:large-tree-create-extract")
+					c.Emit("createextractlarge", in, runCreateExtractLargeCase(c, in), true)
+				}
+			}
+		}
 		// ---- many siblings (directory sharding: sum of name+cid lengths > 256 KiB)
 		nShard := 0
 		if c.Thorough {
